@@ -1,6 +1,6 @@
 #include <stddef.h>
 void *memset(void *s, int c, size_t n){ unsigned char *p = s; for (size_t i = 0; i < n; i++) p[i] = (unsigned char)c; return s; }
 void *memcpy(void *d, const void *s, size_t n){ unsigned char *p = d; const unsigned char *q = s; for (size_t i = 0; i < n; i++) p[i] = q[i]; return d; }
-void *memmove(void *d, const void *s, size_t n){ unsigned char *p = d; const unsigned char *q = s; if (p < q) { for (size_t i = 0; i < n; i++) p[i] = q[i]; } else { for (size_t i = n; i > 0; i--) p[i-1] = q[i-1]; } return d; }
+void *memmove(void *d, const void *s, size_t n){ unsigned char *p = d; const unsigned char *q = s; if (!__CPROVER_same_object(p, q) || p < q) { for (size_t i = 0; i < n; i++) p[i] = q[i]; } else { for (size_t i = n; i > 0; i--) p[i-1] = q[i-1]; } return d; }
 int memcmp(const void *a, const void *b, size_t n){ const unsigned char *p = a, *q = b; for (size_t i = 0; i < n; i++) { if (p[i] != q[i]) return (int)p[i] - (int)q[i]; } return 0; }
 size_t strlen(const char *s){ size_t n = 0; while (s[n] != 0) n++; return n; }
